@@ -44,10 +44,16 @@ pub fn dst_pop(impl_g1: bool) -> Vec<u8> {
     format!("BLS_POP_BLS12381{g}_XMD:SHA-256_SSWU_RO_POP_").into_bytes()
 }
 
+thread_local! {
+    /// points whose encodings were handed out as raw bytes: the model's decode oracle must know them
+    pub static REG: std::cell::RefCell<Vec<String>> = std::cell::RefCell::new(Vec::new());
+}
 pub fn enc_sig(impl_g1: bool, a: &RScalar) -> Vec<u8> {
+    REG.with(|r| r.borrow_mut().push(format!("#reg {} {}", if impl_g1 { "g1" } else { "g2" }, hs(a))));
     if impl_g1 { enc_g1(a) } else { enc_g2(a) }
 }
 pub fn enc_pk(impl_g1: bool, a: &RScalar) -> Vec<u8> {
+    REG.with(|r| r.borrow_mut().push(format!("#reg {} {}", if impl_g1 { "g2" } else { "g1" }, hs(a))));
     if impl_g1 { enc_g2(a) } else { enc_g1(a) }
 }
 
@@ -107,6 +113,10 @@ impl Out {
         Out { s: String::new(), n: 0 }
     }
     pub fn case(&mut self, impl_g1: bool, body: &str) {
+        for l in REG.with(|r| std::mem::take(&mut *r.borrow_mut())) {
+            self.s.push_str(&l);
+            self.s.push('\n');
+        }
         self.n += 1;
         writeln!(self.s, "{} {} {}", self.n, if impl_g1 { "g1" } else { "g2" }, body).unwrap();
     }
@@ -140,11 +150,388 @@ pub fn gen_c01(rng: &mut Prng, thorough: bool, out: &mut Out) {
     }
 }
 
+
+// ------------------------------------------------------------------------------------------
+fn sc_tok(p: &str, s: &RScalar) -> String {
+    format!("{}{}", p, hs(s))
+}
+fn pick_keys(rng: &mut Prng, n: usize) -> Vec<RScalar> {
+    let mut k = edge_scalars();
+    while k.len() < n {
+        k.push(rng.scalar());
+    }
+    k.truncate(n.max(4));
+    k
+}
+fn some_messages(rng: &mut Prng) -> Vec<Vec<u8>> {
+    vec![vec![], b"a".to_vec(), rng.bytes(32), rng.bytes(33), rng.bytes(200)]
+}
+
+pub fn gen_c02(rng: &mut Prng, thorough: bool, out: &mut Out) {
+    for g1 in [true, false] {
+        let keys = pick_keys(rng, if thorough { 10 } else { 4 });
+        for sk in &keys {
+            for scheme in 0..3u8 {
+                for m in some_messages(rng) {
+                    let sc = SCH[scheme as usize];
+                    let sd = sig_dlog(g1, scheme, sk, &m);
+                    let v = |out: &mut Out, sch: &str, sg: &RScalar, pk: &RScalar, msg: &[u8]| {
+                        out.case(g1, &format!("sig_verify c{} p{} q{} x{}", sch, hs(sg), hs(pk), hx(msg)));
+                    };
+                    v(out, sc, &sd, sk, &m);
+                    // signature perturbations
+                    let k = rng.scalar();
+                    for sg in [sd + k, -sd, sd * RScalar::from(2u64), sd * k, sd + RScalar::ONE] {
+                        v(out, sc, &sg, sk, &m);
+                    }
+                    let other = rng.scalar();
+                    v(out, sc, &sig_dlog(g1, scheme, &other, &m), sk, &m);
+                    let mut m2 = m.clone();
+                    m2.push(7);
+                    v(out, sc, &sig_dlog(g1, scheme, sk, &m2), sk, &m);
+                    // message perturbations
+                    v(out, sc, &sd, sk, &m2);
+                    if !m.is_empty() {
+                        let mut m3 = m.clone();
+                        let i = rng.below(m3.len() as u64) as usize;
+                        m3[i] ^= 1 << rng.below(8);
+                        v(out, sc, &sd, sk, &m3);
+                        v(out, sc, &sd, sk, &m[..m.len() - 1]);
+                        v(out, sc, &sd, sk, &[]);
+                    }
+                    // key perturbations
+                    for pk in [other, *sk + RScalar::ONE, -*sk] {
+                        v(out, sc, &sd, &pk, &m);
+                    }
+                    // other labels
+                    for s2 in 0..3u8 {
+                        if s2 != scheme {
+                            v(out, SCH[s2 as usize], &sd, sk, &m);
+                        }
+                    }
+                    // valid related tuples (core level)
+                    let sk2 = rng.scalar();
+                    let d = dst(g1, scheme);
+                    let h = eta(&m, &d);
+                    out.case(g1, &format!("core_verify q{} p{} x{} x{}", hs(&(*sk + sk2)), hs(&(h * (*sk + sk2))), hx(&m), hx(&d)));
+                    out.case(g1, &format!("core_verify q{} p{} x{} x{}", hs(&(*sk + sk2)), hs(&(h * *sk)), hx(&m), hx(&d)));
+                }
+            }
+        }
+    }
+}
+
+pub fn gen_c09(rng: &mut Prng, thorough: bool, out: &mut Out) {
+    for g1 in [true, false] {
+        let keys = pick_keys(rng, if thorough { 12 } else { 6 });
+        out.case(g1, "pop_prove s00");
+        for sk in &keys {
+            out.case(g1, &format!("pop_prove s{}", hs(sk)));
+            let pd = eta(&enc_pk(g1, sk), &dst_pop(g1)) * sk;
+            for pk in &keys {
+                out.case(g1, &format!("pop_verify p{} q{}", hs(&pd), hs(pk)));
+            }
+            for p in [pd + RScalar::ONE, -pd, pd + pd, RScalar::ZERO] {
+                out.case(g1, &format!("pop_verify p{} q{}", hs(&p), hs(sk)));
+            }
+            out.case(g1, &format!("pop_verify p{} q00", hs(&pd)));
+            // a signature over the pk bytes under each scheme is not a PoP, and vice versa
+            for scheme in 0..3u8 {
+                let m = enc_pk(g1, sk);
+                let sd = sig_dlog(g1, scheme, sk, &m);
+                out.case(g1, &format!("pop_verify p{} q{}", hs(&sd), hs(sk)));
+                out.case(g1, &format!("sig_verify c{} p{} q{} x{}", SCH[scheme as usize], hs(&pd), hs(sk), hx(&m)));
+            }
+        }
+    }
+}
+
+pub fn gen_c05(rng: &mut Prng, thorough: bool, out: &mut Out) {
+    gen_c09(rng, false, out);
+    for g1 in [true, false] {
+        let keys = pick_keys(rng, if thorough { 8 } else { 4 });
+        for sk in &keys {
+            for m in some_messages(rng) {
+                for s in 0..3u8 {
+                    let sd = sig_dlog(g1, s, sk, &m);
+                    for s2 in 0..3u8 {
+                        out.case(g1, &format!("sig_verify c{} p{} q{} x{}", SCH[s2 as usize], hs(&sd), hs(sk), hx(&m)));
+                        // proof of knowledge relabelled
+                        let x = rng.scalar();
+                        let y = rng.scalar();
+                        let u = eta(&amsg(g1, 0, sk, &m), &dst(g1, s)) * x;
+                        let _ = u;
+                    }
+                }
+            }
+        }
+    }
+}
+
+fn pairs_tok(pairs: &[(RScalar, Vec<u8>)]) -> String {
+    let mut s = String::from("[");
+    for (pk, m) in pairs {
+        s.push_str(&format!(" q{} x{}", hs(pk), hx(m)));
+    }
+    s.push_str(" ]");
+    s
+}
+
+pub fn agg_dlog(g1: bool, scheme: u8, sks: &[(RScalar, Vec<u8>)]) -> RScalar {
+    let mut a = RScalar::ZERO;
+    for (sk, m) in sks {
+        a += sig_dlog(g1, scheme, sk, m);
+    }
+    a
+}
+
+pub fn gen_c06(rng: &mut Prng, thorough: bool, out: &mut Out) {
+    let ns: Vec<usize> = if thorough { vec![2, 3, 4, 7, 16, 33, 64] } else { vec![2, 3, 5, 9] };
+    for g1 in [true, false] {
+        for scheme in 0..3u8 {
+            let sc = SCH[scheme as usize];
+            for &n in &ns {
+                let sks: Vec<(RScalar, Vec<u8>)> = (0..n).map(|i| (rng.scalar(), { let mut m = rng.bytes(1 + (i % 40)); m.push(i as u8); m })).collect();
+                // accumulation
+                let mut l = String::from("[");
+                for (sk, m) in &sks {
+                    l.push_str(&format!(" c{} p{}", sc, hs(&sig_dlog(g1, scheme, sk, m))));
+                }
+                l.push_str(" ]");
+                out.case(g1, &format!("agg_from_sigs {}", l));
+                let agg = agg_dlog(g1, scheme, &sks);
+                let v = |out: &mut Out, a: &RScalar, pairs: &[(RScalar, Vec<u8>)]| {
+                    out.case(g1, &format!("agg_verify c{} p{} {}", sc, hs(a), pairs_tok(pairs)));
+                };
+                v(out, &agg, &sks);
+                // permutation
+                let mut perm = sks.clone();
+                for i in (1..perm.len()).rev() {
+                    let j = rng.below(i as u64 + 1) as usize;
+                    perm.swap(i, j);
+                }
+                v(out, &agg, &perm);
+                // single-position perturbations
+                let k = rng.below(n as u64) as usize;
+                let mut p1 = sks.clone();
+                p1[k].1.push(1);
+                v(out, &agg, &p1);
+                let mut p2 = sks.clone();
+                p2[k].0 = rng.scalar();
+                v(out, &agg, &p2);
+                let mut p3 = sks.clone();
+                p3.remove(k);
+                v(out, &agg, &p3);
+                let mut p4 = sks.clone();
+                p4.insert(k, (rng.scalar(), rng.bytes(9)));
+                v(out, &agg, &p4);
+                if n >= 2 {
+                    let j = (k + 1) % n;
+                    let mut p5 = sks.clone();
+                    let t = p5[k].1.clone();
+                    p5[k].1 = p5[j].1.clone();
+                    p5[j].1 = t;
+                    v(out, &agg, &p5);
+                }
+                // identity key at position k, identity aggregate
+                let mut p6 = sks.clone();
+                p6[k].0 = RScalar::ZERO;
+                v(out, &agg, &p6);
+                v(out, &RScalar::ZERO, &sks);
+                // a repeated message, with the algebraically valid aggregate
+                let mut dup = sks.clone();
+                let j = (k + 1) % n;
+                dup[j].1 = dup[k].1.clone();
+                let agg_dup = agg_dlog(g1, scheme, &dup);
+                v(out, &agg_dup, &dup);
+            }
+            // fewer than two, mixed
+            let sk = rng.scalar();
+            let sd = sig_dlog(g1, scheme, &sk, b"one");
+            out.case(g1, "agg_from_sigs [ ]");
+            out.case(g1, &format!("agg_from_sigs [ c{} p{} ]", sc, hs(&sd)));
+            let s2 = (scheme + 1) % 3;
+            out.case(g1, &format!("agg_from_sigs [ c{} p{} c{} p{} ]", sc, hs(&sd), SCH[s2 as usize], hs(&sd)));
+            out.case(g1, &format!("agg_from_sigs [ c{} p{} c{} p{} c{} p{} ]", sc, hs(&sd), sc, hs(&sd), SCH[s2 as usize], hs(&sd)));
+            out.case(g1, &format!("agg_verify c{} p{} [ ]", sc, hs(&sd)));
+        }
+    }
+}
+
+pub fn gen_c07(rng: &mut Prng, thorough: bool, out: &mut Out) {
+    let ns: Vec<usize> = if thorough { vec![2, 3, 4, 7, 16, 33, 64] } else { vec![2, 3, 6] };
+    for g1 in [true, false] {
+        for scheme in 0..3u8 {
+            let sc = SCH[scheme as usize];
+            for &n in &ns {
+                let m = rng.bytes(1 + n);
+                let sks: Vec<RScalar> = (0..n).map(|_| rng.scalar()).collect();
+                let mut l = String::from("[");
+                let mut keys = String::from("[");
+                let mut sum_sig = RScalar::ZERO;
+                let mut sum_sk = RScalar::ZERO;
+                for sk in &sks {
+                    let sd = sig_dlog(g1, scheme, sk, &m);
+                    sum_sig += sd;
+                    sum_sk += sk;
+                    l.push_str(&format!(" c{} p{}", sc, hs(&sd)));
+                    keys.push_str(&format!(" q{}", hs(sk)));
+                }
+                l.push_str(" ]");
+                keys.push_str(" ]");
+                out.case(g1, &format!("multi_from_sigs {}", l));
+                out.case(g1, &format!("multi_pk {}", keys));
+                let v = |out: &mut Out, sg: &RScalar, pk: &RScalar, msg: &[u8]| {
+                    out.case(g1, &format!("multi_verify c{} p{} q{} x{}", sc, hs(sg), hs(pk), hx(msg)));
+                };
+                v(out, &sum_sig, &sum_sk, &m);
+                v(out, &sum_sig, &(sum_sk - sks[0]), &m);
+                v(out, &sum_sig, &(sum_sk + rng.scalar()), &m);
+                v(out, &sum_sig, &(sum_sk - sks[n - 1] + rng.scalar()), &m);
+                let mut m2 = m.clone();
+                m2[0] ^= 1;
+                v(out, &sum_sig, &sum_sk, &m2);
+                v(out, &sum_sig, &RScalar::ZERO, &m);
+                v(out, &RScalar::ZERO, &sum_sk, &m);
+            }
+            let sk = rng.scalar();
+            let sd = sig_dlog(g1, scheme, &sk, b"one");
+            out.case(g1, "multi_from_sigs [ ]");
+            out.case(g1, &format!("multi_from_sigs [ c{} p{} ]", sc, hs(&sd)));
+            let s2 = (scheme + 1) % 3;
+            out.case(g1, &format!("multi_from_sigs [ c{} p{} c{} p{} ]", sc, hs(&sd), SCH[s2 as usize], hs(&sd)));
+        }
+        out.case(g1, "multi_pk [ ]");
+    }
+}
+
+/// Shamir shares of `sk` with explicit coefficients: (id, f(id)) for id in ids
+pub fn shamir_eval(coeffs: &[RScalar], x: u64) -> RScalar {
+    let mut acc = RScalar::ZERO;
+    let xs = RScalar::from(x);
+    for c in coeffs.iter().rev() {
+        acc = acc * xs + c;
+    }
+    acc
+}
+fn le_hex(s: &RScalar) -> String {
+    let mut b = sc_be(s);
+    b.reverse();
+    hex::encode(b)
+}
+fn share_tok(id: u64, y: &RScalar) -> String {
+    format!("h{}:{}", id, le_hex(y))
+}
+fn pt_share_tok(id: u64, bytes: &[u8]) -> String {
+    format!("h{}:{}", id, hx(bytes))
+}
+fn list_tok(items: &[String]) -> String {
+    format!("[ {} ]", items.join(" ")).replace("[  ]", "[ ]")
+}
+
+pub fn gen_c08(rng: &mut Prng, thorough: bool, out: &mut Out) {
+    let grid: Vec<(usize, usize)> = if thorough {
+        let mut g = vec![];
+        for n in 2..=7 {
+            for t in 2..=n {
+                g.push((t, n));
+            }
+        }
+        g.extend_from_slice(&[(2, 255), (128, 255), (255, 255), (3, 100)]);
+        g
+    } else {
+        vec![(2, 2), (2, 3), (3, 3), (2, 4), (3, 5), (5, 5), (4, 7), (2, 255), (20, 40)]
+    };
+    for g1 in [true, false] {
+        for &(t, n) in &grid {
+            let sk = rng.scalar();
+            let seed = rng.bytes(32);
+            if n <= 60 || thorough {
+                out.case(g1, &format!("sk_split s{} n{} n{} x{}", hs(&sk), t, n, hx(&seed)));
+            }
+            let coeffs: Vec<RScalar> = std::iter::once(sk).chain((1..t).map(|_| rng.scalar())).collect();
+            let m = rng.bytes(5);
+            // subsets: sizes t-1, t, t+1, n (where meaningful), random members and order
+            let mut sizes = vec![t, n];
+            if t > 2 { sizes.push(t - 1); }
+            if t < n { sizes.push(t + 1); }
+            sizes.push(2);
+            for sz in sizes {
+                if sz > n || sz > 24 && !thorough { continue; }
+                let mut ids: Vec<u64> = (1..=n as u64).collect();
+                for i in (1..ids.len()).rev() {
+                    let j = rng.below(i as u64 + 1) as usize;
+                    ids.swap(i, j);
+                }
+                ids.truncate(sz);
+                let sh: Vec<String> = ids.iter().map(|&i| share_tok(i, &shamir_eval(&coeffs, i))).collect();
+                out.case(g1, &format!("sk_combine {}", list_tok(&sh)));
+                let pks: Vec<String> = ids.iter().map(|&i| pt_share_tok(i, &enc_pk(g1, &shamir_eval(&coeffs, i)))).collect();
+                out.case(g1, &format!("pk_from_shares {}", list_tok(&pks)));
+                for scheme in [0u8, 2u8] {
+                    let h = eta(&m, &dst(g1, scheme));
+                    let sgs: Vec<String> = ids.iter().map(|&i| format!("c{} {}", SCH[scheme as usize], pt_share_tok(i, &enc_sig(g1, &(h * shamir_eval(&coeffs, i)))))).collect();
+                    out.case(g1, &format!("sig_from_shares {}", list_tok(&sgs)));
+                }
+            }
+            // per-share operations
+            for &i in &[1u64, n as u64] {
+                let y = shamir_eval(&coeffs, i);
+                out.case(g1, &format!("sks_public_key {}", share_tok(i, &y)));
+                for scheme in 0..3u8 {
+                    out.case(g1, &format!("sks_sign {} c{} x{}", share_tok(i, &y), SCH[scheme as usize], hx(&m)));
+                    let h = eta(&amsg(g1, scheme, &y, &m), &dst(g1, scheme));
+                    let j = if i == 1 { n as u64 } else { 1 };
+                    let yj = shamir_eval(&coeffs, j);
+                    out.case(g1, &format!("pks_verify {} c{} {} x{}", pt_share_tok(i, &enc_pk(g1, &y)), SCH[scheme as usize], pt_share_tok(i, &enc_sig(g1, &(h * y))), hx(&m)));
+                    out.case(g1, &format!("pks_verify {} c{} {} x{}", pt_share_tok(j, &enc_pk(g1, &yj)), SCH[scheme as usize], pt_share_tok(i, &enc_sig(g1, &(h * y))), hx(&m)));
+                }
+            }
+        }
+        // error cases
+        let sk = rng.scalar();
+        let c = vec![sk, rng.scalar()];
+        let s1 = share_tok(1, &shamir_eval(&c, 1));
+        let s2 = share_tok(2, &shamir_eval(&c, 2));
+        let z = share_tok(0, &shamir_eval(&c, 0));
+        out.case(g1, "sk_combine [ ]");
+        out.case(g1, &format!("sk_combine [ {} ]", s1));
+        out.case(g1, &format!("sk_combine [ {} {} ]", s1, s1));
+        out.case(g1, &format!("sk_combine [ {} {} ]", s1, z));
+        out.case(g1, &format!("sk_combine [ {} {} {} ]", s1, s2, s1));
+        out.case(g1, &format!("sk_combine [ {} h3:{} ]", s1, "ff".repeat(32)));
+        out.case(g1, &format!("sk_combine [ {} h3:{} ]", s1, "00".repeat(32)));
+        out.case(g1, "pk_from_shares [ ]");
+        out.case(g1, &format!("pk_from_shares [ {} ]", pt_share_tok(1, &enc_pk(g1, &sk))));
+        out.case(g1, &format!("pk_from_shares [ {} {} ]", pt_share_tok(1, &enc_pk(g1, &sk)), pt_share_tok(1, &enc_pk(g1, &sk))));
+        out.case(g1, &format!("pk_from_shares [ {} {} ]", pt_share_tok(1, &enc_pk(g1, &sk)), pt_share_tok(0, &enc_pk(g1, &sk))));
+        let bad = vec![0x11u8; enc_pk(g1, &sk).len()];
+        out.case(g1, &format!("pk_from_shares [ {} {} ]", pt_share_tok(1, &enc_pk(g1, &sk)), pt_share_tok(2, &bad)));
+        let e1 = pt_share_tok(1, &enc_sig(g1, &sk));
+        let e2 = pt_share_tok(2, &enc_sig(g1, &sk));
+        out.case(g1, "sig_from_shares [ ]");
+        out.case(g1, &format!("sig_from_shares [ cbasic {} ]", e1));
+        out.case(g1, &format!("sig_from_shares [ cbasic {} cpop {} ]", e1, e2));
+        out.case(g1, &format!("sig_from_shares [ caug {} caug {} ]", e1, e2));
+        for (t, n) in [(1usize, 3usize), (0, 0), (3, 2), (2, 256), (2, 300), (if thorough { 256 } else { 12 }, 256)] {
+            out.case(g1, &format!("sk_split s{} n{} n{} x{}", hs(&sk), t, n, hx(&rng.bytes(32))));
+        }
+        out.case(g1, &format!("sks_sign h1:{} cbasic x00", "00".repeat(32)));
+        out.case(g1, &format!("sks_public_key h1:{}", "00".repeat(32)));
+    }
+}
+
 pub fn generate(prop: &str, thorough: bool, seed: u64) -> Out {
     let mut rng = Prng(seed ^ 0xB15F_u64.wrapping_mul(prop.bytes().fold(7u64, |a, b| a.wrapping_mul(131).wrapping_add(b as u64))));
     let mut out = Out::new();
     match prop {
         "C01" => gen_c01(&mut rng, thorough, &mut out),
+        "C02" => gen_c02(&mut rng, thorough, &mut out),
+        "C05" => gen_c05(&mut rng, thorough, &mut out),
+        "C06" => gen_c06(&mut rng, thorough, &mut out),
+        "C07" => gen_c07(&mut rng, thorough, &mut out),
+        "C08" => gen_c08(&mut rng, thorough, &mut out),
+        "C09" => gen_c09(&mut rng, thorough, &mut out),
         _ => {}
     }
     out
